@@ -104,6 +104,12 @@ def gen_allow(rng: Rng, family: str, names: list) -> dict:
     if r < 0.50:
         i = rng.randrange(4)
         return {"how": "registry-shared", "id": i, "list": SHARED[family][i]}
+    if r < 0.56:
+        # both arguments at once: which one wins is a don't-care (JWS and JWE differ), but the call is a *history event*:
+        # it must not change what the shared / default registry allows in later calls
+        i = rng.randrange(5)
+        lst = rng.sample(universe, rng.randrange(1, 4))
+        return {"how": "both", "id": i, "list": lst, "registry_list": SHARED[family][i] if i < 4 else None}
     # explicit list: singleton / subset / superset with unknown names; biased to contain the names in use
     lst = []
     strs = [n for n in names if isinstance(n, str)]
@@ -214,6 +220,11 @@ def _kw(node: Node, allow: dict, family: str, r7797: bool = False) -> dict:
     if how == "registry-shared":
         fam = "jwe" if family == "jwe" else ("jws7797" if r7797 else "jws")
         return {"registry": node.shared[fam][allow["id"]]}
+    if how == "both":
+        inner = {"how": "registry-shared", "id": allow["id"]} if allow["id"] < 4 else {"how": "registry-default"}
+        kw = _kw(node, inner, family, r7797)
+        kw["algorithms"] = list(allow["list"])
+        return kw
     if how == "registry-default":
         if family == "jwe":
             from joserfc.rfc7516.registry import default_registry
@@ -314,7 +325,7 @@ def execute_op(node: Node, d: dict, state: dict):
             # ---- JWE ----
             kw = _kw(node, allow, "jwe")
             enc, z = d["enc"], d["zip"]
-            if op.startswith("jwt.") and "registry" not in kw:
+            if op.startswith("jwt.") and not isinstance(kw.get("registry"), JWERegistry):
                 # jwt picks the JWE transport by the registry's type
                 kw = {"registry": JWERegistry(algorithms=list(allow["list"]) if allow["list"] is not None else None)}
             prot = {"enc": enc}
@@ -434,9 +445,11 @@ def expectation(d: dict, state: dict):
 
 def judge(d: dict, state_before: dict, outcome) -> tuple | None:
     status, exc, detail = outcome
-    want, bad = expectation(d, state_before)
     if d["op"] == "register":
         return None
+    if d["allow"]["how"] == "both":
+        return None       # don't-care zone; only its after-effects on later calls are judged
+    want, bad = expectation(d, state_before)
     sig_op = d["op"]
     if want == "ok":
         if status == "exc":
